@@ -73,6 +73,7 @@ type Profile struct {
 	PSync          int  // % of Sets that are synchronous
 	PStartOffline  int  // % chance that a target is offline at the start
 	PDevFault      int  // % chance of a transient device fault burst after a step
+	PPreempt       int  // per-mille probability that a controller task is held at a decorated call until others have written (at most 5 holds per history)
 	PStaleWriter   int  // % of the status writes of the mastership / configuration controllers that are held for 5..40 ms between the controller's read and its write
 	PSerializable  int  // % of Sets that ask for SERIALIZABLE isolation through the transaction-strategy extension
 	PForeign       int  // % of environment actions that add / remove a CONTROLS relation of another onos-config node
